@@ -77,8 +77,10 @@ def run_verus(rs, seed=None, rlimit=None, timeout=900):
 # methods of std traits that vstd specifies through `obeys_*_spec()` / external trait specifications (an impl without a spec is
 # admitted with an unknown result instead of being rejected)
 TRAIT_SPEC_METHODS = {'from', 'into', 'try_from', 'try_into', 'clone', 'cloned', 'default', 'eq', 'ne', 'partial_cmp', 'cmp', 'lt', 'le', 'gt', 'ge',
-                      'add', 'sub', 'mul', 'div', 'rem', 'neg', 'not', 'bitand', 'bitor', 'bitxor', 'shl', 'shr', 'next', 'to_owned', 'to_string',
-                      'borrow', 'as_ref', 'deref', 'from_iter', 'collect', 'extend', 'from_str', 'parse', 'hash', 'index', 'into_iter'}
+                      'add', 'sub', 'mul', 'div', 'rem', 'neg', 'not', 'bitand', 'bitor', 'bitxor', 'shl', 'shr', 'next', 'to_string',
+                      'from_str', 'parse', 'index', 'into_iter'}
+# (`as_ref`, `borrow`, `to_owned`, `collect`, `extend`, .. are NOT in the list: their traits have no external trait specification,
+# so Verus rejects a call whose impl has no `assume_specification` -- that is already a tool limit)
 
 
 def classify(meta, run, unit_file):
@@ -106,6 +108,7 @@ def classify(meta, run, unit_file):
 
     failed = []
     tool = []
+    rlimit_fns = []
     tool_scoped = []
     demote_candidates = {}
     # a loop the contract file has no invariant for cannot be verified: failures in such a function are a tool limit
@@ -136,6 +139,15 @@ def classify(meta, run, unit_file):
             more = sorted(n for n, c in f['call_counts'].items() if n in contracted and c > base_counts[f['key']].get(n, 0))
             if more:
                 new_rec_sites[f['key']] = more
+    # the control-flow skeleton (if / match arms / loops / `?` / early returns, in order) of a function differs from the unchanged tree:
+    # the proof hints of the contract (asserts, fuel, triggers) were written for the old shape, so a failed obligation may be
+    # incompleteness of the proof rather than a defect; it needs a concrete failing input to be reported
+    try:
+        with open(os.path.join(VERIF, 'baseline', 'skeletons.json')) as f:
+            base_skel = json.load(f).get(meta.get('unit', ''), {})
+    except Exception:
+        base_skel = {}
+    reshaped = set(f['key'] for f in meta.get('functions', []) if f['key'] in base_skel and 'skeleton' in f and f['skeleton'] != base_skel[f['key']])
     unit_vocab = set(x for v in base_calls.values() for x in v)
     for f in meta.get('functions', []):
         if f['key'] in base_calls and 'calls' in f:
@@ -196,6 +208,11 @@ def classify(meta, run, unit_file):
                                     'msg': 'fn %s has new call site(s) of %s, which need their own termination argument: obligation %s is undecided (not a violation)' %
                                            (info['fn'], ', '.join(new_rec_sites[info['fn']]), info['clause'])})
                 continue
+            if info['fn'] in reshaped:
+                tool_scoped.append({'tags': info.get('tags', []), 'clause': info['clause'], 'needs_input': True,
+                                    'msg': 'fn %s has a different control-flow shape than on the unchanged tree (the proof hints were written for the old shape): the failed obligation %s is reported only if a concrete failing input confirms it' %
+                                           (info['fn'], info['clause'])})
+                continue
             if info['fn'] in new_trait_calls:
                 tool_scoped.append({'tags': info.get('tags', []), 'clause': info['clause'],
                                     'msg': 'fn %s newly calls the std trait method(s) %s; where the impl behind such a call has no specification Verus admits the call with an unknown result: obligation %s is undecided (not a violation)' %
@@ -218,9 +235,23 @@ def classify(meta, run, unit_file):
                 if b is not None:
                     where = b
                     break
+            if where is not None and re.search(r'Resource limit|rlimit', msg):
+                # the solver ran out of budget somewhere in this function.  If the same function also has obligations the solver
+                # positively failed (reported before the budget ran out), those stand and the budget note adds nothing; decided below
+                rlimit_fns.append((where['fn'], msg[:500]))
+                continue
             if where is not None:
                 demote_candidates.setdefault(where['fn'], msg[:300])
             tool.append(msg[:500])
+    # the solver ran out of budget inside a function: neither that function's other failures nor its successes mean anything
+    fn_tags_all = {}
+    for f in meta.get('functions', []):
+        fn_tags_all[f['key']] = sorted(set(t for c in f.get('clauses', []) for t in c.get('tags', [])) | set(f.get('safety_tags', [])))
+    for fn_, msg_ in rlimit_fns:
+        moved = [x for x in failed if x['fn'] == fn_]
+        failed = [x for x in failed if x['fn'] != fn_]
+        tool_scoped.append({'tags': fn_tags_all.get(fn_, []), 'clause': fn_ + '.safety',
+                            'msg': 'fn %s: %s (its %d failed obligation(s) in the same run are not trusted either)' % (fn_, msg_[:200], len(moved))})
     fn_status = {}
     js = run['json']
     if js is None:
